@@ -89,6 +89,28 @@ pub struct WorldlineTickPatchV1 {
 }
 
 impl WorldlineTickPatchV1 {
+    /// Attachment slots that replaying this patch clears although they need not appear in
+    /// `out_slots`: deleting an edge drops its β attachment and deleting a node drops its α
+    /// attachment. A rule that deletes a skeleton element declares these slots itself, but an
+    /// edge that merely moves between source buckets is replayed as delete + upsert, so on a
+    /// base whose edge carries an attachment the replay clears a slot the footprint never named.
+    pub(crate) fn cascade_cleared_slots(&self) -> impl Iterator<Item = SlotId> + '_ {
+        self.ops.iter().filter_map(|op| match op {
+            WarpOp::DeleteEdge {
+                warp_id, edge_id, ..
+            } => Some(SlotId::Attachment(crate::attachment::AttachmentKey::edge_beta(
+                crate::ident::EdgeKey {
+                    warp_id: *warp_id,
+                    local_id: *edge_id,
+                },
+            ))),
+            WarpOp::DeleteNode { node } => Some(SlotId::Attachment(
+                crate::attachment::AttachmentKey::node_alpha(*node),
+            )),
+            _ => None,
+        })
+    }
+
     /// Returns the runtime cycle stamp from the header.
     #[inline]
     #[must_use]
